@@ -41,6 +41,7 @@ func init() {
 		"go.h.tuplebroken": goTupleBroken,
 		"go.h.zeroslice":   goZeroSlice,
 		"go.net.gettx":     goNetGetTx,
+		"go.tl.nilptr":     goTLNilPtr,
 		"go.proof":         goProof,
 	}
 	for k, v := range tlbExec {
@@ -59,6 +60,22 @@ func genC08(g *h.G) {
 	for k := range gc.noSeed {
 		g.Count("no_valid_seed:" + k)
 	}
+	// per-type counts: TL inputs per type (min / max over the types), TL-B inputs per type by class of type
+	mn, mx := 1<<30, 0
+	for _, r := range append(append([]regType{}, tlRegistry...), genericTL...) {
+		n := gc.perType[r.Name]
+		if r.Name == "g.Zero" {
+			continue
+		}
+		if n < mn {
+			mn = n
+		}
+		if n > mx {
+			mx = n
+		}
+	}
+	g.Counters["tl_inputs_per_type_min"] = mn
+	g.Counters["tl_inputs_per_type_max"] = mx
 	g.Counters["tl_types"] = len(tlRegistry) + len(genericTL)
 	g.Counters["tlb_types_registered"] = len(tlbRegistry)
 }
@@ -106,6 +123,7 @@ func (gc *genCtx) genHelpers() {
 	for _, p := range [][2]int{{0, 0}, {1, 1}, {2, 2}, {0, 1}, {1, 2}, {2, 1}, {3, 0}} {
 		g.Emit("go.net.gettx", strconv.Itoa(p[0]), strconv.Itoa(p[1]))
 	}
+	g.Emit("go.tl.nilptr")
 	g.Emit("go.h.tuplebroken")
 	g.Emit("go.h.zeroslice")
 }
@@ -138,6 +156,22 @@ func exFirstRoot(a []string) string {
 	enc, _ := tl.Marshal(b)
 	var s tlb.VmStack
 	_ = s.UnmarshalTL(bytes.NewReader(enc))
+	return "ok"
+}
+
+// go.tl.nilptr: tl.Unmarshal into a nil pointer / tl.Marshal of a nil pointer are errors, not panics
+func goTLNilPtr(a []string) (ans string) {
+	defer func() {
+		if r := recover(); r != nil {
+			ans = fmt.Sprintf("FAIL panic %v", r)
+		}
+	}()
+	if err := tl.Unmarshal(bytes.NewReader([]byte{1, 0, 0, 0}), (*uint32)(nil)); err == nil {
+		return "FAIL decoded into a nil pointer"
+	}
+	if _, err := tl.Marshal((*tl.Int256)(nil)); err == nil {
+		return "FAIL encoded a nil pointer"
+	}
 	return "ok"
 }
 
